@@ -156,6 +156,13 @@ def build(c, g):
                 x[:, -1] = a['pad']          # the padding index really occurs (a bag of one entry is then empty)
             return (x,)
         x = torch.randn(shape(B), generator=g) * c.get('scale', 1.0)
+        lay = a.get('layout')
+        if lay == 'channels_last' and x.dim() == 4:
+            x = x.to(memory_format=torch.channels_last)        # same values, another memory layout (the usual setting for vision models)
+        elif lay == 'channels_last' and x.dim() == 5:
+            x = x.to(memory_format=torch.channels_last_3d)
+        elif lay == 'transposed' and x.dim() >= 3:
+            x = x.transpose(-1, -2).contiguous().transpose(-1, -2)   # same values, last two dimensions stored transposed
         if t == 'rnn' and a['packed']:
             lens = torch.randint(1, a['T'] + 1, (B,), generator=g)
             if B > 0:
